@@ -11,6 +11,7 @@ import (
 	"strings"
 
 	"golang.org/x/tools/go/packages"
+	"golang.org/x/tools/go/callgraph"
 	"golang.org/x/tools/go/ssa"
 )
 
@@ -26,6 +27,7 @@ func engineORD(w *World, tier string) *EngineResult {
 	ordFrame(w, r)
 	ordFlat(w, r)
 	ordLastWins(w, r)
+	ordKey(w, r)
 	r.finish()
 	return r
 }
@@ -661,6 +663,7 @@ func ordOverload(w *World, r *EngineResult) {
 // ---- ORD-row (C22) ----
 
 func ordRow(w *World, r *EngineResult) {
+	dispatcherRegs = findRegistries(w)
 	a := newAE(w, envNone, "quick")
 	// transitive "reads tokens"
 	readsT := map[*ssa.Function]int8{}
@@ -754,7 +757,15 @@ func ordRow(w *World, r *EngineResult) {
 					}
 				}
 				if early {
-					r.holds("ORD-row", fnKey(fn), construct, "the row is captured in the entry block before any token is read", pos)
+					// a helper's entry is only as early as its call sites: no token may be read in a
+					// caller on a path that reaches the call
+					if ok, why := rowEarlyAtCallers(cg, fn, readsTok, 0, map[*ssa.Function]bool{}); !ok {
+						early = false
+						culprit = why
+					}
+				}
+				if early {
+					r.holds("ORD-row", fnKey(fn), construct, "the row is captured in the entry block before any token is read, in this function and on every static call path that leads to it", pos)
 				} else {
 					// restores (value only flows back into ErrorRow through a local) are RC3's business
 					onlyRestore := true
@@ -793,6 +804,110 @@ func ordRow(w *World, r *EngineResult) {
 	}
 	r.Stats["definition_row_captures"] = n
 	r.floor("definition_row_captures", 6)
+}
+
+// rowEarlyAtCallers: fn is entered before any token of the construct has been read, i.e. on
+// every static call path from an evaluator entry (a function that is only reached through an
+// interface or has no caller in the module) no token-reading call can precede the call.
+func rowEarlyAtCallers(cg *callgraph.Graph, fn *ssa.Function, readsTok func(*ssa.Function, int) bool, depth int, seen map[*ssa.Function]bool) (bool, string) {
+	if seen[fn] || depth > 4 {
+		return true, ""
+	}
+	seen[fn] = true
+	nd := cg.Nodes[fn]
+	if nd == nil {
+		return true, ""
+	}
+	for _, e := range nd.In {
+		if e.Site == nil || e.Site.Common().StaticCallee() != fn {
+			continue
+		}
+		caller := e.Caller.Func
+		if caller == nil || caller.Pkg == nil || !inModule(caller.Pkg.Pkg.Path()) || caller == fn {
+			continue
+		}
+		if isDispatcher(caller) {
+			// the generic dispatcher hands the construct's first token over; its own one-token
+			// look-ahead belongs to no construct
+			continue
+		}
+		site := e.Site.(ssa.Instruction)
+		sb := site.Block()
+		// blocks from which the site's block is reachable
+		canReach := map[*ssa.BasicBlock]bool{}
+		var back func(b *ssa.BasicBlock)
+		back = func(b *ssa.BasicBlock) {
+			for _, p := range b.Preds {
+				if !canReach[p] {
+					canReach[p] = true
+					back(p)
+				}
+			}
+		}
+		back(sb)
+		for _, b := range caller.Blocks {
+			for _, ins := range b.Instrs {
+				if ins == site && !canReach[sb] {
+					break // rest of the site's block comes after the call
+				}
+				if !(canReach[b] || b == sb) {
+					break
+				}
+				c, ok := ins.(*ssa.Call)
+				if !ok || ssa.Instruction(c) == site {
+					if ins == site && !canReach[sb] {
+						break
+					}
+					continue
+				}
+				var cals []*ssa.Function
+				if sc := c.Call.StaticCallee(); sc != nil {
+					cals = []*ssa.Function{sc}
+				} else if cn := cg.Nodes[caller]; cn != nil {
+					for _, oe := range cn.Out {
+						if oe.Site == ssa.CallInstruction(c) {
+							cals = append(cals, oe.Callee.Func)
+						}
+					}
+				}
+				for _, cal := range cals {
+					if cal != nil && readsTok(cal, 0) {
+						return false, fnKey(cal) + " is called in " + fnKey(caller) + " before it calls " + fnKey(fn)
+					}
+				}
+			}
+		}
+		if ok, why := rowEarlyAtCallers(cg, caller, readsTok, depth+1, seen); !ok {
+			return false, why
+		}
+	}
+	return true, ""
+}
+
+var dispatcherRegs []*registry
+
+// isDispatcher: the function looks an evaluator up in one of the registries (package-level
+// maps of module interfaces) — the point where a construct starts.
+func isDispatcher(f *ssa.Function) bool {
+	for _, b := range f.Blocks {
+		for _, ins := range b.Instrs {
+			var m ssa.Value
+			switch x := ins.(type) {
+			case *ssa.Lookup:
+				m = x.X
+			default:
+				continue
+			}
+			if g := rootGlobal(m); g != nil {
+				for _, r := range dispatcherRegs {
+					if r.global == g {
+						return true
+					}
+				}
+			}
+		}
+	}
+	return false
 }
 
 // ---- ORD-spec (C24) ----
